@@ -18,7 +18,17 @@ Also emitted (information for C12/C14, checked by the property files where state
   * nondet_sources : every textual use of random_device / system_clock under src/ and inc/ (file, line)
 Skipped on purpose (no effect on the modelled state): declarations of `updatetime`, `h5save`
 (= opts.getSavePhaseSpace()), `outstepnr = 0`, `simulationstep = 0` (checked to be literal 0 and to
-precede the loop), the `at` declaration (folded into `Append (AGrid AtIfSave)`), `delete` statements.
+precede the loop), the `at` declaration (folded into `Append (AGrid AtIfSave)`).  Opaque: the arguments
+of the status line (`status_string(grid_t1, t, rotations)`: [Print MStatus]).
+`delete wake_field; delete wm; delete fpm;` are [Free] calls.  Local `const` variables with a pure
+initialiser (no call, no assignment, no reference to Display::abort) are let-bindings: every use is
+replaced by the initialiser; a use after a step counter the initialiser reads has changed fails.
+Conditions are matched on a canonical text (parentheses only where the tree needs them, `0 < x` = `x > 0`,
+`!(a % b)` = `a % b == 0`, `if (!c) A else B` = `if (c) B else A`, `p` = `p != nullptr`).
+The set-up (from the statement after `signal(SIGINT, ..)` to the marker) becomes `main_setup`, a control
+skeleton in the language of coq/Model/Setup.v (class SetupTr): hook points, `return`s, try/catch,
+`Display::abort = true`, `if (renormalize >= 0) { updateXProjection(); normalize(); }`; every other
+statement / condition must not mention Display::abort, a hook point or a return and is opaque.
 Read off the source, not translated: `wkm != nullptr` iff `wake_field != nullptr` (both are set in
 the same branch of the set-up, src/main.cpp "if (wake_impedance != nullptr)"): both become GWake."""
 import sys, os, re, glob
@@ -30,61 +40,152 @@ DROP = ("ImplicitCastExpr", "ParenExpr", "ExprWithCleanups", "MaterializeTempora
         "ConstantExpr")
 
 
+# C++ operator precedence (higher binds tighter); used to print parentheses exactly where the
+# expression tree needs them, so that the canonical text determines the tree
+PREC = {"*": 13, "/": 13, "%": 13, "+": 12, "-": 12, "<<": 11, ">>": 11, "<": 9, "<=": 9, ">": 9, ">=": 9,
+        "==": 8, "!=": 8, "&": 7, "^": 6, "|": 5, "&&": 4, "||": 3}
+FLIP = {"<": ">", ">": "<", "<=": ">=", ">=": "<="}
+LITERALS = ("IntegerLiteral", "FloatingLiteral", "CXXNullPtrLiteralExpr", "CXXBoolLiteralExpr")
+# local `const` variables of the translated part whose initialiser is a pure expression: name -> AST of the
+# initialiser; a reference to such a variable is rendered as its initialiser (set by Tr)
+LOCALS = {}
+ON_LOCAL_USE = [None]     # callback(name): staleness check of the translator
+
+
+def unwrap(n):
+    while n.get("kind") in DROP:
+        ks = kids(n)
+        if len(ks) != 1:
+            raise TranslateError("wrapper %s with %d children" % (n.get("kind"), len(ks)))
+        n = ks[0]
+    if n.get("kind") == "CXXConstructExpr":
+        args = [c for c in kids(n) if c.get("kind") != "CXXDefaultArgExpr"]
+        if len(args) == 1:
+            return unwrap(args[0])
+    if n.get("kind") == "DeclRefExpr" and n["referencedDecl"].get("name") in LOCALS:
+        nm = n["referencedDecl"]["name"]
+        if ON_LOCAL_USE[0]:
+            ON_LOCAL_USE[0](nm)
+        return unwrap(LOCALS[nm])
+    return n
+
+
 def render(n):
-    """canonical text of an expression (casts, temporaries, default arguments dropped)"""
+    return rp(n, 0)[0]
+
+
+def par(tp, minprec):
+    return "(" + tp[0] + ")" if tp[1] < minprec else tp[0]
+
+
+def rp(n, _unused=0):
+    """(canonical text, precedence) of an expression: casts, temporaries and default arguments dropped, local
+    pure constants replaced by their initialisers, `0 < x` written `x > 0`, `nullptr != p` written
+    `p != nullptr`, `!(a % b)` written `a % b == 0`; parentheses only where the tree needs them"""
+    n = unwrap(n)
     k = n.get("kind")
     ks = kids(n)
-    if k in DROP:
-        if len(ks) != 1:
-            raise TranslateError("wrapper %s with %d children" % (k, len(ks)))
-        return render(ks[0])
     if k == "CXXConstructExpr":
         args = [c for c in ks if c.get("kind") != "CXXDefaultArgExpr"]
-        if len(args) == 1:
-            return render(args[0])
-        return "ctor(" + ", ".join(render(c) for c in args) + ")"
+        return "ctor(" + ", ".join(render(c) for c in args) + ")", 16
     if k == "DeclRefExpr":
-        return n["referencedDecl"].get("name", "?")
+        return n["referencedDecl"].get("name", "?"), 17
     if k == "MemberExpr":
-        base = render(ks[0]) if ks else "this"
-        return base + ("->" if n.get("isArrow") else ".") + n.get("name", "?")
+        base = par(rp(ks[0]), 16) if ks else "this"
+        return base + ("->" if n.get("isArrow") else ".") + n.get("name", "?"), 16
     if k == "CXXOperatorCallExpr":
         op = render(ks[0])
         if op == "operator->":
-            return render(ks[1])
+            return rp(ks[1])
         if op == "operator*" and len(ks) == 2:
-            return "*" + render(ks[1])
+            return "*" + par(rp(ks[1]), 15), 15
         if op in ("operator!=", "operator==") and len(ks) == 3:
-            return "%s %s %s" % (render(ks[1]), op[8:], render(ks[2]))
-        return op + "(" + ", ".join(render(c) for c in ks[1:]) + ")"
+            a, b = ks[1], ks[2]
+            if unwrap(a).get("kind") in LITERALS and unwrap(b).get("kind") not in LITERALS:
+                a, b = b, a
+            return "%s %s %s" % (par(rp(a), 8), op[8:], par(rp(b), 9)), 8
+        return op + "(" + ", ".join(render(c) for c in ks[1:]) + ")", 16
     if k == "CXXMemberCallExpr":
         callee = render(ks[0])
         if callee.endswith("operator bool") or re.search(r"(->|\.)operator bool$", callee):
-            return re.sub(r"(->|\.)operator bool$", "", callee)
+            return re.sub(r"(->|\.)operator bool$", "", callee), 16
         args = [c for c in ks[1:] if c.get("kind") != "CXXDefaultArgExpr"]
-        return callee + "(" + ", ".join(render(c) for c in args) + ")"
+        return callee + "(" + ", ".join(render(c) for c in args) + ")", 16
     if k == "CallExpr":
         args = [c for c in ks[1:] if c.get("kind") != "CXXDefaultArgExpr"]
-        return render(ks[0]) + "(" + ", ".join(render(c) for c in args) + ")"
+        return par(rp(ks[0]), 16) + "(" + ", ".join(render(c) for c in args) + ")", 16
     if k == "BinaryOperator":
-        return "%s %s %s" % (render(ks[0]), n["opcode"], render(ks[1]))
+        op = n["opcode"]
+        a, b = ks
+        if op in FLIP and unwrap(a).get("kind") in LITERALS and unwrap(b).get("kind") not in LITERALS:
+            a, b, op = b, a, FLIP[op]
+        if op in ("==", "!=") and unwrap(a).get("kind") in LITERALS and unwrap(b).get("kind") not in LITERALS:
+            a, b = b, a
+        p = PREC.get(op, 2)
+        if p == 2:      # assignment and compound assignment: right associative
+            return "%s %s %s" % (par(rp(a), 3), op, par(rp(b), 2)), 2
+        return "%s %s %s" % (par(rp(a), p), op, par(rp(b), p + 1)), p
     if k == "UnaryOperator":
-        return (render(ks[0]) + n["opcode"]) if n.get("isPostfix") else (n["opcode"] + render(ks[0]))
+        op = n["opcode"]
+        if n.get("isPostfix"):
+            return par(rp(ks[0]), 16) + op, 16
+        inner = unwrap(ks[0])
+        if op == "!" and inner.get("kind") == "BinaryOperator" and inner.get("opcode") == "%":
+            return "%s == 0" % par(rp(inner), 9), 8
+        return op + par(rp(ks[0]), 15), 15
     if k == "ConditionalOperator":
-        return "%s ? %s : %s" % tuple(render(c) for c in ks)
+        c, a, b = ks
+        return "%s ? %s : %s" % (par(rp(c), 3), par(rp(a), 2), par(rp(b), 2)), 2
     if k == "IntegerLiteral":
-        return str(int(n["value"]))
+        return str(int(n["value"])), 17
     if k == "FloatingLiteral":
-        return str(n["value"])
+        return str(n["value"]), 17
     if k == "StringLiteral":
-        return n["value"]
+        return n["value"], 17
     if k == "CXXNullPtrLiteralExpr":
-        return "nullptr"
+        return "nullptr", 17
     if k == "CXXBoolLiteralExpr":
-        return "true" if n.get("value") else "false"
+        return ("true" if n.get("value") else "false"), 17
     if k == "CXXDeleteExpr":
-        return "delete " + render(ks[0])
+        return "delete " + par(rp(ks[0]), 15), 15
     raise TranslateError("expression kind %s not understood" % k)
+
+
+IMPURE_KINDS = ("CallExpr", "CXXMemberCallExpr", "CXXOperatorCallExpr", "CXXNewExpr", "CXXDeleteExpr", "CXXConstructExpr",
+                "CXXThrowExpr", "LambdaExpr", "CompoundAssignOperator", "StmtExpr")
+
+
+def impure_reason(n):
+    """None when the expression has no side effect and does not read Display::abort (only literals, variables,
+    arithmetic/comparison/logical operators, ?:, casts); otherwise why not"""
+    k = n.get("kind")
+    if k in IMPURE_KINDS:
+        return "contains a %s" % k
+    if k == "BinaryOperator" and (n.get("opcode") == "," or "=" in n.get("opcode", "") and n.get("opcode") not in ("==", "!=", "<=", ">=")):
+        return "contains the operator %s" % n.get("opcode")
+    if k == "UnaryOperator" and n.get("opcode") in ("++", "--", "*", "&"):
+        return "contains the operator %s" % n.get("opcode")
+    if k == "DeclRefExpr":
+        rd = n["referencedDecl"]
+        if rd.get("name") == "abort":
+            return "reads Display::abort"
+        if rd.get("kind") not in ("VarDecl", "ParmVarDecl", "EnumConstantDecl"):
+            return "refers to a %s" % rd.get("kind")
+    if k == "MemberExpr":
+        return "contains a member access"
+    for c in kids(n):
+        r = impure_reason(c)
+        if r:
+            return r
+    return None
+
+
+def names_in(n, acc):
+    if n.get("kind") == "DeclRefExpr":
+        acc.add(n["referencedDecl"].get("name"))
+    for c in kids(n):
+        names_in(c, acc)
+    return acc
 
 
 CALLS = {
@@ -111,16 +212,21 @@ CALLS = {
     "drm->apply()": "(Apply MDrift)", "drm->applyToAll(trackme)": "(Track MDrift)",
     "fpm->apply()": "(Apply MFP)", "fpm->applyToAll(trackme)": "(Track MFP)",
     "outstepnr++": "IncOutNr", "simulationstep++": "IncStep",
+    "delete wake_field": "(Free OWakeField)", "delete wm": "(Free OWm)", "delete fpm": "(Free OFpm)",
     'printText("Aborted.")': "(Print MAborted)", 'printText("Finished.")': "(Print MFinished)",
 }
 STATUS = [re.compile(r"^printText\(status_string\(grid_t1, (0|simulationstep / steps), rotations\)(, false(, updatetime)?)?\)$")]
 GUARDS = {
-    "hdf_file != nullptr": "GHdf", "wake_field != nullptr": "GWake", "wkm != nullptr": "GWake",
+    "hdf_file != nullptr": "GHdf", "hdf_file": "GHdf",
+    "wake_field != nullptr": "GWake", "wkm != nullptr": "GWake", "wake_field": "GWake", "wkm": "GWake",
     "h5save == 0": "GSave0",
     "renormalize > 0 && simulationstep % renormalize == 0": "GRenorm",
     "outstep > 0 && simulationstep % outstep == 0": "GOut",
-    "drfm": "GDynRF", "abort": "GAbort",
+    "drfm": "GDynRF", "drfm != nullptr": "GDynRF", "abort": "GAbort",
 }
+# variables the translated part changes (IncStep / IncOutNr): a local constant that reads one of them may only be
+# used before the next change
+MUTABLE = ("simulationstep", "outstepnr")
 WHILE = "simulationstep < laststep && !abort"
 AT_EXPR = "h5save > 0 && outstepnr % h5save == 0 ? All : Defaults"
 SKIP_DECL = {"updatetime": None, "h5save": "opts.getSavePhaseSpace()", "outstepnr": "0", "simulationstep": "0"}
@@ -131,6 +237,20 @@ class Tr:
         self.points = []      # labels in order of appearance
         self.skipped = []
         self.at_declared = False
+        self.at_epoch = None
+        self.inlined = []     # local constants replaced by their initialisers
+        self.epoch = 0        # number of changes of a MUTABLE variable (and loop boundaries) passed so far
+        self.local_epoch = {}
+        LOCALS.clear()
+        ON_LOCAL_USE[0] = self.local_used
+
+    def local_used(self, nm):
+        if self.local_epoch.get(nm) is not None and self.local_epoch[nm] != self.epoch:
+            raise TranslateError("local constant %s reads a step counter and is used after the counter changed" % nm)
+
+    def boundary(self):
+        """loop entry / exit: what was computed from the step counters before is stale afterwards"""
+        self.epoch += 1
 
     def stmt_list(self, stmts):
         """list of AST statements -> list of ('call', txt) | ('cond', g, t, e)"""
@@ -155,28 +275,63 @@ class Tr:
                 if v.get("kind") != "VarDecl":
                     raise TranslateError("declaration %s in the simulation part" % v.get("kind"))
                 nm = v.get("name")
-                init = render(kids(v)[0]) if kids(v) else None
+                ini = kids(v)[0] if kids(v) else None
                 if nm == "at":
+                    init = render(ini) if ini is not None else None
                     if init != AT_EXPR:
                         raise TranslateError("`at` is no longer %s but %s" % (AT_EXPR, init))
                     self.at_declared = True
+                    self.at_epoch = self.epoch
                 elif nm in SKIP_DECL:
+                    init = render(ini) if ini is not None else None
                     want = SKIP_DECL[nm]
                     if want is not None and init != want:
                         raise TranslateError("initialiser of %s is %s, expected %s" % (nm, init, want))
                     self.skipped.append("%s = %s" % (nm, init))
                 else:
-                    raise TranslateError("unexpected declaration of %s = %s" % (nm, init))
+                    # a local constant with a pure initialiser is carried as a let-binding: every use is
+                    # replaced by the initialiser (same value: no variable it reads changes in between)
+                    qt = v.get("type", {}).get("qualType", "")
+                    why = None
+                    if ini is None:
+                        why = "it has no initialiser"
+                    elif not (qt.startswith("const ") or " const" in qt) or "*" in qt or "&" in qt:
+                        why = "its type `%s` is not a const value type" % qt
+                    elif v.get("storageClass") == "static":
+                        why = "it is static"
+                    else:
+                        why = impure_reason(ini)
+                    if why:
+                        try:
+                            init = render(ini) if ini is not None else None
+                        except TranslateError:
+                            init = "?"
+                        raise TranslateError("unexpected declaration of %s = %s (%s)" % (nm, init, why))
+                    if nm in LOCALS or nm in MUTABLE or nm in ("hdf_file", "wake_field", "wkm", "drfm", "h5save", "outstep", "renormalize", "abort", "steps", "laststep", "at"):
+                        raise TranslateError("local constant %s shadows a name of the driver" % nm)
+                    init = render(ini)
+                    reads = names_in(ini, set())
+                    for other in list(reads):
+                        if other in LOCALS:
+                            reads |= names_in(LOCALS[other], set())
+                    LOCALS[nm] = ini
+                    self.local_epoch[nm] = self.epoch if (reads & set(MUTABLE)) else None
+                    self.inlined.append("%s = %s" % (nm, init))
             return []
         if k == "IfStmt":
             ks = kids(s)
             if s.get("hasInit") or s.get("hasVar"):
                 raise TranslateError("if with init/variable")
             g = render(ks[0])
+            neg = False
+            if g not in GUARDS and g.startswith("!") and g[1:] in GUARDS:
+                g, neg = g[1:], True          # if (!c) A else B  ==  if (c) B else A
             if g not in GUARDS:
                 raise TranslateError("condition not understood: if (%s)" % g)
             t = self.block(ks[1])
             e = self.block(ks[2]) if len(ks) > 2 else []
+            if neg:
+                t, e = e, t
             return [("cond", GUARDS[g], t, e)]
         if k == "ReturnStmt":
             v = render(kids(s)[0])
@@ -194,8 +349,13 @@ class Tr:
             self.points.append(lab)
             return [("call", "(Point %d)" % (len(self.points) - 1))]
         if txt in CALLS:
-            if txt.endswith(", at)") and not self.at_declared:
-                raise TranslateError("append(.., at) without the `at` declaration")
+            if txt.endswith(", at)"):
+                if not self.at_declared:
+                    raise TranslateError("append(.., at) without the `at` declaration")
+                if self.at_epoch != self.epoch:
+                    raise TranslateError("append(.., at): a step counter changed since `at` was computed")
+            if CALLS[txt] in ("IncOutNr", "IncStep"):
+                self.epoch += 1
             return [("call", CALLS[txt])]
         if any(r.match(txt) for r in STATUS):
             return [("call", "(Print MStatus)")]
@@ -203,6 +363,194 @@ class Tr:
             self.skipped.append(txt)
             return []
         raise TranslateError("statement not understood: %s" % txt[:200])
+
+
+
+# ---------------------------------------------------------------------------------------------------------
+# the set-up (from the installation of the SIGINT handler to "Starting the simulation."): control skeleton
+# in the language of coq/Model/Setup.v
+
+SETUP_CALLS = {"grid_t1->updateXProjection()": "UpdateXProj", "grid_t1->normalize()": "Normalize"}
+SETUP_GUARDS = {"renormalize >= 0": "GRenorm0"}
+
+
+def refs_abort(n):
+    if n.get("kind") == "DeclRefExpr" and n["referencedDecl"].get("name") == "abort" and n["referencedDecl"].get("kind") == "VarDecl":
+        return True
+    return any(refs_abort(c) for c in kids(n))
+
+
+def is_point(n):
+    if n.get("kind") == "CallExpr":
+        try:
+            return re.match(r'^point\((.*)\)$', render(n)) is not None
+        except TranslateError:
+            return False
+    return False
+
+
+def text_of(n):
+    try:
+        return render(n)
+    except TranslateError:
+        return None
+
+
+def interesting(n):
+    """does the subtree hold something the skeleton keeps: the flag, a return, a hook point, a PhaseSpace call of SETUP_CALLS"""
+    k = n.get("kind")
+    if k == "ReturnStmt" or is_point(n):
+        return True
+    if k == "DeclRefExpr" and n["referencedDecl"].get("name") == "abort" and n["referencedDecl"].get("kind") == "VarDecl":
+        return True
+    if k == "CXXMemberCallExpr" and text_of(n) in SETUP_CALLS:
+        return True
+    return any(interesting(c) for c in kids(n))
+
+
+def line_of_node(n):
+    b = n.get("range", {}).get("begin", {})
+    off = b.get("offset", b.get("expansionLoc", {}).get("offset", b.get("spellingLoc", {}).get("offset")))
+    return _line_of(off)
+
+
+def strings_in(n, acc):
+    if n.get("kind") == "StringLiteral":
+        acc.append(n.get("value", "").strip('"'))
+    for c in kids(n):
+        strings_in(c, acc)
+    return acc
+
+
+class SetupTr:
+    def __init__(self):
+        self.points = []          # labels in source order; point i is `Point (-(i+1))`
+        self.opaque = {}          # n (source line of the first statement) -> number of statements merged
+        self.conds = {}           # n -> dict(text, then_labels, else_labels, then_strings, else_strings)
+
+    def fresh(self, n, table):
+        ln = line_of_node(n) or 0
+        while ln in self.opaque or ln in self.conds:
+            ln += 100000          # two statements on one line
+        return ln
+
+    def stmt_list(self, stmts):
+        out = []
+        for s in stmts:
+            for it in self.stmt(s):
+                if it[0] == "opq" and out and out[-1][0] == "opq":
+                    self.opaque[out[-1][1]] += 1        # a run of opaque statements is one opaque statement
+                    del self.opaque[it[1]]
+                else:
+                    out.append(it)
+        return out
+
+    def block(self, n):
+        if n.get("kind") == "CompoundStmt":
+            return self.stmt_list(kids(n))
+        return self.stmt_list([n])
+
+    def labels_of(self, items, acc):
+        for it in items:
+            if it[0] == "call" and it[1].startswith("(Point"):
+                acc.append(self.points[-int(re.search(r"-?\d+", it[1]).group(0)) - 1])
+            elif it[0] == "if":
+                self.labels_of(it[2], acc)
+                self.labels_of(it[3], acc)
+            elif it[0] == "try":
+                self.labels_of(it[1], acc)
+                self.labels_of(it[2], acc)
+        return acc
+
+    def opq(self, s):
+        n = self.fresh(s, self.opaque)
+        self.opaque[n] = 1
+        return [("opq", n)]
+
+    def stmt(self, s):
+        k = s.get("kind")
+        if k == "NullStmt":
+            return []
+        if k == "CompoundStmt":
+            return self.stmt_list(kids(s))
+        if not interesting(s):
+            return self.opq(s)
+        if is_point(s):
+            lab = re.match(r'^point\((.*)\)$', render(s)).group(1).strip('"')
+            if lab in self.points:
+                raise TranslateError("label %s used twice" % lab)
+            self.points.append(lab)
+            return [("call", "(Point (%d))" % (-len(self.points)))]
+        if k == "ReturnStmt":
+            v = render(kids(s)[0]) if kids(s) else "?"
+            if not re.match(r"^\d+$", v):
+                raise TranslateError("set-up: return %s" % v)
+            return [("return", int(v))]
+        if k == "IfStmt":
+            ks = kids(s)
+            if s.get("hasInit") or s.get("hasVar"):
+                raise TranslateError("set-up: if with init/variable")
+            if refs_abort(ks[0]):
+                raise TranslateError("set-up: the condition `%s` reads Display::abort" % (text_of(ks[0]) or "?"))
+            if interesting(ks[0]):
+                raise TranslateError("set-up: hook point or return inside a condition")
+            g = text_of(ks[0])
+            t = self.block(ks[1])
+            e = self.block(ks[2]) if len(ks) > 2 else []
+            if g in SETUP_GUARDS:
+                return [("if", "(CGuard %s)" % SETUP_GUARDS[g], t, e)]
+            n = self.fresh(s, self.conds)
+            self.conds[n] = dict(text=(g or "?")[:120], then_labels=self.labels_of(t, []), else_labels=self.labels_of(e, []),
+                                 then_strings=strings_in(ks[1], []), else_strings=strings_in(ks[2], []) if len(ks) > 2 else [])
+            return [("if", "(COpq %d)" % n, t, e)]
+        if k == "CXXTryStmt":
+            ks = kids(s)
+            catches = [c for c in ks if c.get("kind") == "CXXCatchStmt"]
+            if len(catches) != 1 or ks[0].get("kind") != "CompoundStmt":
+                raise TranslateError("set-up: try statement with %d handlers" % len(catches))
+            hk = [c for c in kids(catches[0]) if c.get("kind") == "CompoundStmt"]
+            if len(hk) != 1:
+                raise TranslateError("set-up: catch handler without a body")
+            return [("try", self.block(ks[0]), self.block(hk[0]))]
+        txt = text_of(s)
+        if txt == "abort = true":
+            return [("setabort",)]
+        if txt in SETUP_CALLS:
+            return [("call", SETUP_CALLS[txt])]
+        if refs_abort(s):
+            raise TranslateError("set-up: Display::abort is accessed by `%s` (only `Display::abort = true;` is understood)" % (txt or k)[:160])
+        raise TranslateError("set-up: %s holds a hook point, a return or a PhaseSpace call of the model and is not an if/try/block: %s" % (k, (txt or "")[:120]))
+
+
+def coq_sblk(items, ind="  "):
+    if not items:
+        return "SDone"
+    it = items[0]
+    if it[0] == "return":
+        return "SReturn %d" % it[1]          # what follows a return is dead code
+    rest = coq_sblk(items[1:], ind)
+    if it[0] == "call":
+        return "SCall %s\n%s(%s)" % (it[1], ind, rest)
+    if it[0] == "setabort":
+        return "SSetAbort\n%s(%s)" % (ind, rest)
+    if it[0] == "opq":
+        return "SOpq %d\n%s(%s)" % (it[1], ind, rest)
+    if it[0] == "if":
+        _, c, t, e = it
+        return "SIf %s\n%s  (%s)\n%s  (%s)\n%s(%s)" % (c, ind, coq_sblk(t, ind + "  "), ind, coq_sblk(e, ind + "  "), ind, rest)
+    _, t, h = it
+    return "STry\n%s  (%s)\n%s  (%s)\n%s(%s)" % (ind, coq_sblk(t, ind + "  "), ind, coq_sblk(h, ind + "  "), ind, rest)
+
+
+def handler_index(st):
+    """index of the top-level statement that installs the SIGINT handler (`signal(SIGINT, ...)` or `sigaction(SIGINT, ...)`)"""
+    idx = []
+    for i, s in enumerate(st):
+        if s.get("kind") == "CallExpr":
+            t = text_of(s) or ""
+            if re.match(r"^(signal|sigaction)\(", t) and "SIGINT_handler" in t or re.match(r"^sigaction\(2,", t):
+                idx.append(i)
+    return idx
 
 
 def coq_blk(items, ind="  "):
@@ -262,6 +610,24 @@ def nondet_sources():
     return res
 
 
+def abort_writes_elsewhere():
+    """textual scan of src/ and inc/ (main.cpp excluded: it is translated) for writes of Display::abort; anything but
+    `abort = true` (signal handler, window close button) or the definition `abort(false)` fails the translation"""
+    res = []
+    for p in sorted(glob.glob(os.path.join(REPO, "src", "**", "*.cpp"), recursive=True) +
+                    glob.glob(os.path.join(REPO, "inc", "**", "*.hpp"), recursive=True)):
+        rel = os.path.relpath(p, REPO)
+        if rel == os.path.join("src", "main.cpp"):
+            continue
+        for i, line in enumerate(open(p, errors="replace"), 1):
+            code = line.split("//")[0]
+            if re.search(r"\babort\b\s*(=[^=]|\+=|-=|\|=|&=|\^=)", code) or re.search(r"&\s*(Display::)?abort\b", code):
+                if not re.search(r"\babort\s*=\s*true\s*;", code):
+                    raise TranslateError("%s:%d writes Display::abort other than `= true`: %s" % (rel, i, code.strip()[:100]))
+                res.append((rel, i))
+    return res
+
+
 def translate():
     docs = ast_of("src/main.cpp", "main")
     mains = [x for x in docs if x.get("kind") == "FunctionDecl" and x.get("name") == "main"]
@@ -272,6 +638,12 @@ def translate():
     idx = [i for i, s in enumerate(st) if has_str(s, "Starting the simulation")]
     if len(idx) != 1:
         raise TranslateError("marker statement 'Starting the simulation.' found %d times at top level" % len(idx))
+    LOCALS.clear()
+    hi = handler_index(st)
+    if len(hi) != 1 or hi[0] >= idx[0]:
+        raise TranslateError("statement installing the SIGINT handler found %d times at top level before the marker" % len(hi))
+    su = SetupTr()
+    setup_items = su.stmt_list(st[hi[0] + 1:idx[0] + 1])
     sim = st[idx[0] + 1:]
     wl = [i for i, s in enumerate(sim) if s.get("kind") == "WhileStmt"]
     if len(wl) != 1:
@@ -282,9 +654,11 @@ def translate():
         raise TranslateError("loop condition is no longer `%s` but `%s`" % (WHILE, render(cond)))
     tr = Tr()
     pre = tr.stmt_list(sim[:wl[0]])
+    tr.boundary()
     if "simulationstep = 0" not in tr.skipped or "outstepnr = 0" not in tr.skipped:
         raise TranslateError("step counters are not initialised to 0 before the loop: %s" % tr.skipped)
     bodyb = tr.block(wbody)
+    tr.boundary()
     post = tr.stmt_list(sim[wl[0] + 1:])
     if not post or post[-1] != ("call", "Exit"):
         raise TranslateError("the simulation part does not end in return")
@@ -305,24 +679,37 @@ def translate():
             collect(c)
     for s in st[:idx[0] + 1]:
         collect(s)
+    if setup_pts != su.points:
+        raise TranslateError("hook points of the set-up outside the translated region: %s" % [l for l in setup_pts if l not in su.points])
     refs = []
     for i, s in enumerate(st):
         acc = []
         find_abort_refs(s, acc)
         refs += [(ln, wr, i > idx[0]) for (ln, wr) in acc]
     nd = nondet_sources()
+    aw = abort_writes_elsewhere()
     out = []
     out.append("(* GENERATED on every run by translate/mainloop2coq.py from src/main.cpp (main, from")
     out.append("   \"Starting the simulation.\" to return). Do not edit.")
-    out.append("   skipped (no effect on the modelled state): %s *)" % "; ".join(tr.skipped))
+    out.append("   skipped (no effect on the modelled state): %s" % "; ".join(tr.skipped))
+    out.append("   local constants replaced by their (pure) initialisers: %s *)" % ("; ".join(tr.inlined) or "none"))
     out.append("From Coq Require Import List ZArith String.")
-    out.append("From Inovesa Require Import Model.Driver.")
+    out.append("From Inovesa Require Import Model.Driver Model.Setup.")
     out.append("Import ListNotations.")
     out.append("Local Open Scope Z_scope.")
     out.append("Definition main_pre : blk :=\n  %s." % coq_blk(pre))
     out.append("Definition main_body : blk :=\n  %s." % coq_blk(bodyb))
     out.append("Definition main_post : blk :=\n  %s." % coq_blk(post))
     out.append("Definition main_prog : prog := mkprog main_pre main_body main_post.")
+    out.append("(* the set-up, from the statement after the installation of the SIGINT handler to \"Starting the simulation.\":")
+    out.append("   control skeleton (Model/Setup.v); hook point i of setup_point_names is `Point (-(i+1))`; SOpq n / COpq n: n = source")
+    out.append("   line of the (first) statement *)")
+    out.append("Definition main_setup : sblk :=\n  %s." % coq_sblk(setup_items))
+    out.append("(* opaque conditions of the set-up: (n, text) *)")
+    out.append("Definition setup_conds : list (Z * string) :=\n  [%s]." %
+               ";\n   ".join('(%d, "%s"%%string)' % (n, c["text"].replace('"', "'").replace("\\", "/")) for n, c in sorted(su.conds.items())))
+    out.append("(* opaque statements of the set-up: (n, number of consecutive statements merged into it) *)")
+    out.append("Definition setup_opaque : list (Z * Z) :=\n  [%s]." % "; ".join("(%d, %d)" % x for x in sorted(su.opaque.items())))
     out.append("(* VERIF_POINT labels of the translated part, index = argument of Point *)")
     out.append("Definition point_names : list (Z * string) :=\n  [%s]." %
                ";\n   ".join('(%d, "%s"%%string)' % (i, l) for i, l in enumerate(tr.points)))
@@ -331,11 +718,13 @@ def translate():
     out.append("(* every reference to Display::abort in main(): (source line, is a write, lies in the translated part) *)")
     out.append("Definition abort_refs : list (Z * bool * bool) :=\n  [%s]." %
                "; ".join("(%s, %s, %s)" % (ln or 0, "true" if wr else "false", "true" if sim_ else "false") for ln, wr, sim_ in refs))
+    out.append("(* every write of Display::abort outside main.cpp (each one is `abort = true`; anything else fails the translation) *)")
+    out.append("Definition abort_writes_elsewhere : list (string * Z) :=\n  [%s]." % "; ".join('("%s"%%string, %d)' % x for x in aw))
     out.append("(* every textual use of random_device / system_clock under src/ and inc/ *)")
     out.append("Definition nondet_sources : list (string * Z * string) :=\n  [%s]." %
                ";\n   ".join('("%s"%%string, %d, "%s"%%string)' % x for x in nd))
     return "\n".join(out) + "\n", dict(points=tr.points, setup_points=setup_pts, pre=pre, body=bodyb, post=post,
-                                       abort_refs=refs, nondet=nd)
+                                       abort_refs=refs, nondet=nd, setup=setup_items, setup_conds=su.conds, setup_opaque=su.opaque)
 
 
 if __name__ == "__main__":
